@@ -248,6 +248,9 @@ func cmdCheck(prop, tier string, rest []string) int {
 				trustedContracts = append(trustedContracts, cf.PkgDir+": "+c.Name)
 				continue
 			}
+			if c.Flags["trustedframe"] {
+				trustedContracts = append(trustedContracts, cf.PkgDir+": frame condition (modifies clause) of "+c.Name+"; its other obligations are verified")
+			}
 			fn := e.FindFunction(c)
 			if fn == nil {
 				transErrs = append(transErrs, fmt.Sprintf("%s.%s: function under contract not found in the source", cf.PkgDir, c.Name))
